@@ -1,10 +1,7 @@
 (* Model.ExprBack — Gallina port of the back half of the `:=` pipeline:
-     optimize_const   (expression_eval.py:510-601)
-     lowering         (var_operation.py:289-356)
-   and the whole statement  `target :<form>= tokens`  (var_operation.py:93-95, 265-356).
-   optimize_const is modelled WITH fixes/C02-optconst-identity.patch applied
-   (`in "*%"` / `in "+-"` on lines 593/595 became `in ("*", "/")` / `in ("+", "-")`),
-   and eval_expr WITH fixes/C02-evalexpr-unary-plus.patch (ast.UAdd accepted). *)
+     optimize_const / merge_constants / merge_constant   (expression_eval.py)
+     lowering                                            (var_operation.py)
+   and the whole statement  `target :<form>= tokens`, as repaired by fixes/C02-*.patch. *)
 From Coq Require Import ZArith String List Bool.
 From JMCV Require Import Base.Int32 Base.Dec MC.Syntax Model.Names Model.VarOp Model.Expr Model.ExprSpec Model.ExprFront.
 Import ListNotations.
@@ -16,84 +13,105 @@ Definition o_num (o : oper2) : onum := snd o.
 Definition is_cconst (n : onum) : bool := match n with CConst _ => true | _ => false end.
 
 (* ------------------------------------------------------------------ optimize_const *)
-(* temp_operations = pre ++ [first constant] ++ post, pre without constants *)
-Fixpoint split_const (l : list oper2) : list oper2 * option ((score * opc * Z) * list oper2) :=
-  match l with
-  | [] => ([], None)
-  | (v, o, CConst c) :: r => ([], Some ((v, o, c), r))
-  | x :: r => let '(pre, s) := split_const r in (x :: pre, s)
+(* merge_constant(first_operator, const, operator, number): `v fo= c; v o= n` as `v fo= result` *)
+Definition fval (f : folded) : option Z := match f with FVal z => Some z | _ => None end.
+
+Definition merge_constant (fo : opc) (c : Z) (o : opc) (n : Z) : option Z :=
+  match fo with
+  | PEmpty => match o with
+              | PEmpty => None
+              | PPow => None                     (* operations never carry "**" *)
+              | _ => fval (fold_constants o c n)
+              end
+  | PAdd | PSub =>
+      match o with
+      | PAdd | PSub => fval (fold_constants (if opc_eqb fo o then PAdd else PSub) c n)
+      | _ => None
+      end
+  | PMul => match o with PMul => fval (fold_constants PMul c n) | _ => None end
+  | PDiv => match o with
+            | PDiv => if (0 <? c) && (0 <? n) && (c * n <? 2147483648) then Some (c * n) else None
+            | _ => None
+            end
+  | _ => None
   end.
 
-(* mid-list flush (lines 536-556): the first constant absorbs every later constant n of the group as
-   eval_expr(const + op + " " + n) — whatever the first constant's own operator is; the later
-   entries are deleted.  (The identity tests in that loop compare with "*%" / "+-" by ==: never true.) *)
+(* commutative_kind *)
+Inductive kind := KAdd | KMul.
+Definition kind_eqb (a b : kind) : bool := match a, b with KAdd, KAdd | KMul, KMul => true | _, _ => false end.
+Definition kind_of (o : opc) : option kind :=
+  match o with PAdd | PSub => Some KAdd | PMul => Some KMul | _ => None end.
+(* crossed in (None, kind) *)
+Definition crossed_ok (crossed k : option kind) : bool :=
+  match crossed with
+  | None => true
+  | Some c => match k with Some k' => kind_eqb c k' | None => false end
+  end.
+
 Definition reads_self (x : oper2) : bool :=
   match o_num x with CVar s => score_eqb s (o_var x) | _ => false end.
 
-Fixpoint mid_merge (fo : opc) (c : Z) (post : list oper2) (crossed selfx : bool) : M (Z * list oper2) :=
-  match post with
-  | [] => ret (c, [])
-  | (v, o, CConst n) :: r =>
-      tell_if selfx T_opt_merge_self ;;;
-      tell_if (match fo with
-               | PSub | PDiv | PMod => true
-               | PEmpty => crossed && (opc_eqb o PDiv || opc_eqb o PMod)
-               | _ => false end) T_opt_mid_merge ;;;
-      c' <- py_eval2 c o n ;;
-      mid_merge fo c' r crossed selfx
-  | x :: r => '(c', r') <- mid_merge fo c r true (selfx || reads_self x) ;; ret (c', x :: r')
-  end.
-Definition flush_mid (l : list oper2) : M (list oper2) :=
-  match split_const l with
-  | (_, None) => ret l
-  | (pre, Some ((v, o, c), post)) =>
-      '(c', post') <- mid_merge o c post false false ;; ret (pre ++ (v, o, CConst c') :: post')
+(* merge_constants: the loop.  new_operations = rev done ++ anchor :: rev between when there is an anchor
+   (the operation whose constant takes in the following constants), rev done otherwise. *)
+Record mstate := mkM {
+  m_done : list oper2;                        (* REVERSED *)
+  m_anchor : option (score * opc * Z);
+  m_between : list oper2;                     (* REVERSED; operations after the anchor *)
+  m_crossed : option kind
+}.
+Definition m_close (st : mstate) : list oper2 :=      (* REVERSED new_operations *)
+  match m_anchor st with
+  | Some (v, o, c) => m_between st ++ (v, o, CConst c) :: m_done st
+  | None => m_done st
   end.
 
-(* final flush (lines 561-600) *)
-Fixpoint final_merge (fo : opc) (c : Z) (post : list oper2) (crossed selfx : bool) : M (Z * list oper2) :=
-  match post with
-  | [] => ret (c, [])
-  | (v, o, CConst n) :: r =>
-      if opc_eqb fo PMod then                                   (* `continue`: kept *)
-        '(c', r') <- final_merge fo c r true selfx ;; ret (c', (v, o, CConst n) :: r')
-      else
-        tell_if selfx T_opt_merge_self ;;;
-        c' <- (match fo with
-               | PMul => py_eval2 c o n
-               | PDiv => tell T_opt_final_div ;;;
-                         py_eval2 c (if opc_eqb o PDiv then PMul else PDiv) n
-               | PPow => crash "Exception"                      (* "Unreachable" *)
-               | _ => (* first_const_op.content in "+-" : "", "+" or "-" (the == "" branch below it is dead) *)
-                   tell_if (opc_eqb fo PSub) T_opt_final_minus ;;;
-                   tell_if (opc_eqb fo PEmpty && opc_eqb o PDiv && crossed) T_opt_final_div ;;;
-                   tell_if (opc_eqb fo PEmpty && opc_eqb o PMod && crossed) T_opt_final_mod ;;;
-                   py_eval3 fo c o n
-               end) ;;
-        final_merge fo c' r crossed selfx
-  | x :: r => '(c', r') <- final_merge fo c r true (selfx || reads_self x) ;; ret (c', x :: r')
-  end.
-Definition flush_final (l : list oper2) : M (list oper2) :=
-  match split_const l with
-  | (_, None) => ret l
-  | (pre, Some ((v, o, c), post)) =>
-      '(c', post') <- final_merge o c post false false ;;
-      (* identity elimination, as repaired by fixes/C02-optconst-identity.patch *)
-      let is_identity :=
-          match o with
-          | PMul | PDiv => c' =? 1
-          | PAdd | PSub => c' =? 0
-          | _ => false
-          end in
-      ret (pre ++ (if is_identity then post' else (v, o, CConst c') :: post'))
+Definition merge_step (st : mstate) (x : oper2) : mstate :=
+  let '(var, op, num) := x in
+  let k := kind_of op in
+  match num with
+  | CVar s =>
+      match m_anchor st with
+      | Some (av, ao, ac) =>
+          if match k with None => true | Some _ => false end
+             || score_eqb s var
+             || negb (crossed_ok (m_crossed st) k)
+             || (negb (opc_eqb ao PEmpty)
+                 && negb (match kind_of ao, k with Some a, Some b => kind_eqb a b | None, None => true | _, _ => false end))
+          then mkM (x :: m_close st) None [] (m_crossed st)
+          else mkM (m_done st) (m_anchor st) (x :: m_between st) k
+      | None => mkM (x :: m_done st) None [] (m_crossed st)
+      end
+  | CConst n =>
+      let fresh := mkM (m_close st) (Some (var, op, n)) [] None in
+      match m_anchor st with
+      | Some (av, ao, ac) =>
+          if crossed_ok (m_crossed st) k then
+            match merge_constant ao ac op n with
+            | Some c' => mkM (m_done st) (Some (av, ao, c')) (m_between st) (m_crossed st)
+            | None => fresh
+            end
+          else fresh
+      | None => fresh
+      end
   end.
 
-Fixpoint opt_loop (l : list oper2) (temp : list oper2) (acc : list oper2) : M (list oper2) :=
+(* `v += 0`, `v -= 0`, `v *= 1`, `v /= 1` *)
+Definition is_identity (x : oper2) : bool :=
+  match o_num x with
+  | CConst c => match o_op x with
+                | PAdd | PSub => c =? 0
+                | PMul | PDiv => c =? 1
+                | _ => false
+                end
+  | _ => false
+  end.
+
+Definition merge_constants (l : list oper2) : list oper2 :=
+  filter (fun x => negb (is_identity x)) (rev (m_close (fold_left merge_step l (mkM [] None [] None)))).
+
+Fixpoint opt_loop (l : list oper2) (temp : list oper2) (acc : list oper2) : list oper2 :=
   match l with
-  | [] => match temp with
-          | [] => ret acc
-          | _ => t' <- flush_final temp ;; ret (acc ++ t')
-          end
+  | [] => acc ++ merge_constants temp
   | (var, op, n) :: r =>
       match temp with
       | [] => opt_loop r [(var, op, n)] acc
@@ -102,16 +120,15 @@ Fixpoint opt_loop (l : list oper2) (temp : list oper2) (acc : list oper2) : M (l
           let same_grp := is_same_group op (o_op (last temp t0)) in
           let after_eq := (Nat.eqb (length temp) 1) && opc_eqb (o_op t0) PEmpty in
           if same_var && (same_grp || after_eq) then
-            if negb (opc_eqb (o_op t0) PEmpty) || negb (is_reflective op)
+            if negb after_eq || negb (is_reflective op)
                || negb (is_cconst (o_num t0)) || is_cconst n
+               || match n with CVar s => score_eqb s var | _ => false end
             then opt_loop r (temp ++ [(var, op, n)]) acc
-            else
-              tell_if (match n with CVar s => score_eqb s var | _ => false end) T_opt_swap_self ;;;
-              opt_loop r ((var, o_op t0, n) :: rest ++ [(var, op, o_num t0)]) acc
-          else t' <- flush_mid temp ;; opt_loop r [(var, op, n)] (acc ++ t')
+            else opt_loop r ((var, o_op t0, n) :: rest ++ [(var, op, o_num t0)]) acc     (* v = c; v += a  ->  v = a; v += c *)
+          else opt_loop r [(var, op, n)] (acc ++ merge_constants temp)
       end
   end.
-Definition optimize_const (l : list oper2) : M (list oper2) := opt_loop l [] [].
+Definition optimize_const (l : list oper2) : list oper2 := opt_loop l [] [].
 
 (* ------------------------------------------------------------------ lowering *)
 (* int_score nm z = (z_dec z, int_name nm): the fake player of the constant z (Model.VarOp) *)
@@ -127,9 +144,11 @@ Definition lower_one (nm : names) (o : oper2) : M (cmd * list Z) :=
       (* number = int(float(content)) *)
       if FLOAT_EXACT <? Z.abs z then tell T_const_range ;;; unmodelled "int(float(constant)) rounds" else
       match op with
-      | PAdd => let c := if 0 <=? z then CAdd v z else CRemove v (- z) in
+      | PAdd => if z =? INT_MIN then ret (COp v OAdd (int_score nm z), [z]) else     (* -2147483648 goes through the constant *)
+                let c := if 0 <=? z then CAdd v z else CRemove v (- z) in
                 tell_if (negb (amount_ok (Z.abs z))) T_const_range ;;; ret (c, [])
-      | PSub => let c := if 0 <=? z then CRemove v z else CAdd v (- z) in
+      | PSub => if z =? INT_MIN then ret (COp v OSub (int_score nm z), [z]) else
+                let c := if 0 <=? z then CRemove v z else CAdd v (- z) in
                 tell_if (negb (amount_ok (Z.abs z))) T_const_range ;;; ret (c, [])
       | PEmpty => tell_if (negb (in_int32b z)) T_const_range ;;; ret (CSet v z, [])
       | PMod | PMul | PDiv =>
@@ -146,46 +165,17 @@ Fixpoint lower (nm : names) (l : list oper2) : M (list cmd * list Z) :=
   end.
 
 (* ------------------------------------------------------------------ the statement *)
-(* var_operation.py:93-95: for every operator except `:=`, a `-` directly after the operator is
-   merged with the following token into one KEYWORD *)
-Fixpoint tok_has_objsel (t : tok) : bool :=
-  match t with
-  | KVarT (SObjSel _ _) => true
-  | KParen l => existsb tok_has_objsel l
-  | _ => false
-  end.
-Definition has_objsel (l : list tok) : bool := existsb tok_has_objsel l.
-
-Definition iop_premerge (form : opc) (toks : list tok) : M (list tok) :=
-  if opc_eqb form PEmpty then ret toks else
-  match toks with
-  | KOp PSub :: nxt :: rest =>
-      match nxt with
-      | KNum z => ret (KNum (- z) :: rest)              (* "-3": what tokens_to_tokens would have built *)
-      | KVarT (SDollar _) =>                             (* "-$a": Unrecognized expression token *)
-          tell T_iop_leading_minus ;;; diag "Unrecognized expression token"
-      | KVarT (SObjSel o s) =>                           (* "-obj:@s" is split at ':' : objective "-obj" *)
-          tell T_iop_leading_minus ;;; ret (KVarT (SObjSel ("-" ++ o) s) :: rest)
-      | KParen l =>
-          tell T_iop_leading_minus ;;;
-          if has_objsel l then unmodelled "merged parenthesis containing ':'"
-          else diag "Unrecognized expression token"
-      | KOp _ => unmodelled "two operators merged into a keyword"
-      end
-  | _ => ret toks
-  end.
-
+(* var_operation.py: `target :<form>= tokens` for the six expression operators
+   (is_expression_operator); the tokens after the operator go to tokens_to_tokens unchanged *)
 Definition compile_assign (nm : names) (target : score) (form : opc) (toks : list tok)
   : M (list cmd * list Z) :=
   match toks with
   | [] => diag "Expected keyword after operator"
   | _ =>
-      toks1 <- iop_premerge form toks ;;
-      ft <- tokens_to_tokens nm toks1 ;;
+      ft <- tokens_to_tokens nm toks ;;
       tree <- expression_to_tree ft ;;
       ops <- tree_to_operations nm tree target form ;;
-      ops' <- optimize_const ops ;;
-      lower nm ops'
+      lower nm (optimize_const ops)
   end.
 
 Definition compile_expr (nm : names) (target : score) (form : opc) (e : expr) : M (list cmd * list Z) :=
